@@ -227,12 +227,14 @@ theorem wf_resourceContents (rc : ResourceContents) : wfResourceContents (encode
     by_cases hm : mime.isEmpty = true <;>
       simp [encodeResourceContents, wfResourceContents, reqIs, optIs, optField, hm, lookup, hasKey, isStr]
 
-theorem wf_content (c : Content) (h : isEmbedded c = false) : wfContent (encodeContent c) = true := by
+theorem wf_content (c : Content) : wfContent (encodeContent c) = true := by
   cases c with
   | text s a => cases a <;> simp [encodeContent, wfContent, annField, encodeAnnotations, reqIs, optIs, lookup, isStr, isObj, tagText]
   | image d m a => cases a <;> simp [encodeContent, wfContent, annField, encodeAnnotations, reqIs, optIs, lookup, isStr, isObj, tagImage]
   | audio d m a => cases a <;> simp [encodeContent, wfContent, annField, encodeAnnotations, reqIs, optIs, lookup, isStr, isObj, tagAudio]
-  | embedded r a => simp [isEmbedded] at h
+  | embedded r a =>
+    have := wf_resourceContents r
+    cases a <;> simp [encodeContent, wfContent, annField, encodeAnnotations, reqIs, optIs, lookup, isStr, isObj, tagEmbedded, this]
 
 theorem metaField_lookup (m : Obj) (k : Text) (hk : k ≠ t!"_meta") : lookup (metaField m) k = none := by
   unfold metaField; split <;> simp [lookup, Ne.symm hk]
@@ -240,11 +242,11 @@ theorem metaField_lookup (m : Obj) (k : Text) (hk : k ≠ t!"_meta") : lookup (m
 theorem metaField_meta (m : Obj) : optIs (metaField m) t!"_meta" isObj = true := by
   unfold metaField; split <;> simp [optIs, lookup, isObj]
 
-theorem wf_callResult (r : CallToolResult) (h : resultConforms r) : wfResult t!"tools/call" (encodeResult r) = true := by
-  obtain ⟨cs, hc, hall⟩ := h
+theorem wf_callResult (r : CallToolResult) (cs : List Content) (hc : r.content = some cs) :
+    wfResult t!"tools/call" (encodeResult r) = true := by
   have hl : (cs.map encodeContent).all wfContent = true := by
     simp only [List.all_map, List.all_eq_true]
-    intro c hc; exact wf_content c (hall c hc)
+    intro c _; exact wf_content c
   unfold encodeResult wfResult
   simp only [hc, sliceJson]
   have m1 := metaField_meta r.metaMap
@@ -252,19 +254,21 @@ theorem wf_callResult (r : CallToolResult) (h : resultConforms r) : wfResult t!"
   have m3 := metaField_lookup r.metaMap t!"isError" (by decide)
   cases hmm : lookup (metaField r.metaMap) t!"_meta" <;> cases hs : r.structured <;> cases he : r.isError <;>
     simp_all [optIs, listOf, lookup_append, structuredField, optField, lookup, isBool]
-theorem wf_promptMessage (m : PromptMessage) (hr : roleOk m.role = true) (c : Content) (hc : m.content = some c)
-    (he : isEmbedded c = false) : wfPromptMessage (encodePromptMessage m) = true := by
-  have := wf_content c he
+theorem wf_promptMessage (m : PromptMessage) (hr : roleOk m.role = true) (c : Content) (hc : m.content = some c) :
+    wfPromptMessage (encodePromptMessage m) = true := by
+  have := wf_content c
   simp [roleOk] at hr
   simp [encodePromptMessage, wfPromptMessage, reqIs, lookup, hc, encodeContentOpt, this, wfRole, hr]
 
-theorem wf_getPrompt (r : GetPromptResult) (h : promptConforms r) : wfResult t!"prompts/get" (encodeGetPrompt r) = true := by
-  obtain ⟨ms, hm, hall⟩ := h
+theorem wf_getPrompt (r : GetPromptResult) (ms : List PromptMessage) (hm : r.messages = some ms) (h : promptConforms r) :
+    wfResult t!"prompts/get" (encodeGetPrompt r) = true := by
+  have hall : ∀ m ∈ ms, roleOk m.role = true ∧ ∃ c, m.content = some c := by
+    intro m hmem; exact h m (by simp [hm, hmem])
   have hl : (ms.map encodePromptMessage).all wfPromptMessage = true := by
     simp only [List.all_map, List.all_eq_true]
     intro m hmem
-    obtain ⟨hr, c, hc, he⟩ := hall m hmem
-    exact wf_promptMessage m hr c hc he
+    obtain ⟨hr, c, hc⟩ := hall m hmem
+    exact wf_promptMessage m hr c hc
   unfold encodeGetPrompt wfResult
   simp only [hm, sliceJson]
   have m2 := metaField_lookup r.metaMap t!"messages" (by decide)
@@ -341,7 +345,7 @@ theorem runTool_wf (reg : Registry) (h : reg.Conforming) (tool : ToolEntry) (ht 
   split at hr <;> simp at hr
   rename_i r' hrun
   subst hr
-  exact wf_callResult r' (h.tools tool ht a r' hrun)
+  exact wf_callResult _ (r'.content.getD []) rfl
 
 theorem handleCallTool_wf (reg : Registry) (h : reg.Conforming) (req : Req) (r : Json)
     (hr : handleCallTool reg req = .result r) : wfResult t!"tools/call" r = true := by
@@ -364,7 +368,10 @@ theorem handleGetPrompt_wf (reg : Registry) (h : reg.Conforming) (req : Req) (r 
   split at hr <;> simp at hr
   rename_i r' hrun
   subst hr
-  exact wf_getPrompt r' (h.prompts p (findPrompt_mem hfind).1 _ r' hrun)
+  refine wf_getPrompt _ (r'.messages.getD []) rfl ?_
+  intro m hm
+  have hc := h.prompts p (findPrompt_mem hfind).1 _ r' hrun
+  exact hc m (by simpa using hm)
 
 theorem handleReadResource_wf (reg : Registry) (h : reg.Conforming) (req : Req) (r : Json)
     (hr : handleReadResource reg req = .result r) : wfResult t!"resources/read" r = true := by
@@ -376,10 +383,7 @@ theorem handleReadResource_wf (reg : Registry) (h : reg.Conforming) (req : Req) 
   split at hr <;> simp at hr
   rename_i cs hrun
   subst hr
-  have := h.resources e (findResource_mem hfind).1 _ cs hrun
-  cases cs with
-  | none => simp at this
-  | some l => exact wf_readResource l
+  exact wf_readResource _
 /-! ## the request as the spec reads it vs. as the struct decoder binds it -/
 
 def plainLower (c : Nat) : Prop := 97 ≤ c ∧ c ≤ 122 ∧ c ≠ 107 ∧ c ≠ 115
@@ -433,12 +437,16 @@ theorem idDemand_many (o : Obj) (a b : Text × Json) (rest : Obj) (h : membersLo
     idDemand (some (.obj o)) = .any := by
   simp [idDemand, h]
 
-/-- the id a server echoes satisfies the demand the request's id member(s) create -/
-theorem id_ok (o : Obj) (id' : Json) (h : anyField o t!"id" = some (some id')) (hex : idsExact (some (.obj o))) :
-    idOk (idDemand (some (.obj o))) id' = true := by
+theorem two53_lt_overflow : 9007199254740992 < f64Overflow := by decide +kernel
+
+/-- the id a server echoes (`null` for a nil id) satisfies the demand the request's id member(s) create -/
+theorem id_ok (o : Obj) (oid : Option Json) (h : anyField o t!"id" = some oid) :
+    idOk (idDemand (some (.obj o))) (oid.getD .null) = true := by
   rw [anyField, fieldVals_id] at h
   cases hm : membersLoose o t!"id" with
-  | nil => rw [hm] at h; simp [anyFieldAux] at h
+  | nil =>
+    rw [hm] at h; simp [anyFieldAux] at h; subst h
+    rw [idDemand_nil o hm]; rfl
   | cons kv rest =>
     obtain ⟨k, v⟩ := kv
     cases rest with
@@ -451,16 +459,12 @@ theorem id_ok (o : Obj) (id' : Json) (h : anyField o t!"id" = some (some id')) (
         subst hk
         rw [hm] at h
         simp only [List.map_cons, List.map_nil, anyFieldAux] at h
-        have hmem : (t!"id", v) ∈ o := by
-          have : (t!"id", v) ∈ membersLoose o t!"id" := by rw [hm]; simp
-          exact (List.mem_filter.mp this).1
         cases v with
         | str s => simp [goDecode] at h; subst h; simp [idOk, idEq]
         | int i =>
-          have hi := hex t!"id" i hmem (by decide)
-          by_cases hlt : i.natAbs < f64Overflow
-          · simp [goDecode, hlt, f64RoundInt_exact i hi] at h; subst h; simp [idOk, idEq]
-          · simp [goDecode, hlt] at h
+          have hi : i.natAbs ≤ two53 := by simpa [wfId, two53] using hw
+          have hlt : i.natAbs < f64Overflow := Nat.lt_of_le_of_lt hi two53_lt_overflow
+          simp [goDecode, hlt, f64RoundInt_exact i hi] at h; subst h; simp [idOk, idEq]
         | _ => simp [wfId] at hw
       · simp only [hk, if_false]; rfl
 
@@ -492,16 +496,16 @@ theorem method_ok (o : Obj) (m : Text) (h : strField o t!"method" = some m) :
 theorem wfResult_nil (m : Text) (r : Json) (h : wfResult m r = true) : wfResult [] r = true := by
   cases r <;> simp_all [wfResult]
 
-theorem wfMsg_okMsg (req : Option Json) (id r : Json) :
-    wfMsg req (okMsg (some id) r) = (idOk (idDemand req) id && wfResult (requestMethod req) r) := by
+theorem wfMsg_okMsg (req : Option Json) (id : Option Json) (r : Json) :
+    wfMsg req (okMsg id r) = (idOk (idDemand req) (id.getD .null) && wfResult (requestMethod req) r) := by
   simp [wfMsg, okMsg, jsonrpcField, version20, keysNodup, hasKey, lookup, reqIs, isStrEq, onlyKeys]
 
-theorem wfMsg_errMsg (req : Option Json) (id : Json) (code : Int) (msg : Text) :
-    wfMsg req (errMsg (some id) code msg) = idOk (idDemand req) id := by
-  simp [wfMsg, errMsg, jsonrpcField, version20, keysNodup, hasKey, lookup, reqIs, isStrEq, onlyKeys, wfError, isInt, isStr]
+theorem wfMsg_errMsg (req : Option Json) (id : Option Json) (code : Int) (msg : Text) :
+    wfMsg req (errMsg id code msg) =
+      (idOk (idDemand req) (id.getD .null) || (isNull (id.getD .null) && (code == -32700 || code == -32600))) := by
+  simp [wfMsg, errMsg, jsonrpcField, version20, keysNodup, hasKey, lookup, reqIs, isStrEq, onlyKeys, wfError, isInt, isStr,
+    isUnidentifiedError]
 
-theorem wfMsg_errMsg_none (req : Option Json) (code : Int) (msg : Text) : wfMsg req (errMsg none code msg) = false := by
-  simp [wfMsg, errMsg, jsonrpcField, version20, keysNodup, hasKey, lookup, reqIs, isStrEq, onlyKeys]
 theorem handleInitialize_result (reg : Registry) (req : Req) (r : Json) (h : handleInitialize reg req = .ok (.result r)) :
     ∃ v, r = initResult reg v := by
   unfold handleInitialize at h
@@ -625,10 +629,10 @@ theorem dispatchStdio_result_wf (reg : Registry) (hc : reg.Conforming) (req : Re
 /-! ## every emitted message is well-formed -/
 
 theorem decodeRequest_fields (j : Json) (req : Req) (h : decodeRequest j = some req) :
-    (req.id = none) ∨ ∃ o, j = .obj o ∧ anyField o t!"id" = some req.id ∧ strField o t!"method" = some req.method := by
+    (j = .null ∧ req.id = none) ∨ ∃ o, j = .obj o ∧ anyField o t!"id" = some req.id ∧ strField o t!"method" = some req.method := by
   unfold decodeRequest at h
   cases j <;> simp [asMapTarget] at h
-  · left; subst h; rfl
+  · left; subst h; exact ⟨rfl, rfl⟩
   · rename_i o
     right
     refine ⟨o, rfl, ?_⟩
@@ -651,13 +655,12 @@ theorem decode_agree (j : Json) (b : Base) (req : Req) (hb : decodeBase j = some
     simp_all
 
 /-- every message an answer becomes is well-formed with respect to the request object it answers -/
-theorem ansMsg_wf (o : Obj) (req : Req) (a : Ans) (id' : Json) (hid : req.id = some id')
+theorem ansMsg_wf (o : Obj) (req : Req) (a : Ans)
     (hf : anyField o t!"id" = some req.id) (hm : strField o t!"method" = some req.method)
-    (hex : idsExact (some (.obj o))) (hres : ∀ r, a = .result r → wfResult req.method r = true) :
+    (hres : ∀ r, a = .result r → wfResult req.method r = true) :
     ∀ m ∈ (ansMsg req.id a).toList, wfMsg (some (.obj o)) m = true := by
   intro m hmem
-  rw [hid] at hf hmem
-  have hidok := id_ok o id' hf hex
+  have hidok := id_ok o req.id hf
   cases a with
   | result r =>
     simp [ansMsg] at hmem; subst hmem
@@ -668,11 +671,19 @@ theorem ansMsg_wf (o : Obj) (req : Req) (a : Ans) (id' : Json) (hid : req.id = s
     · simp [wfResult_nil _ _ hr]
   | error c msg =>
     simp [ansMsg] at hmem; subst hmem
-    rw [wfMsg_errMsg, hidok]
-  | unencodable => simp [ansMsg] at hmem
+    rw [wfMsg_errMsg, hidok]; rfl
+  | unencodable why =>
+    simp [ansMsg] at hmem; subst hmem
+    rw [wfMsg_errMsg, hidok]; rfl
 
-theorem wf_servePost (c : SCfg) (reg : Registry) (st : St) (ref : Ref) (j : Json) (hc : reg.Conforming)
-    (hex : idsExact (some j)) : ∀ m ∈ (servePost c reg st ref j).2.messages, wfMsg (some j) m = true := by
+/-- an error answer for an unidentified request (id null, Parse error / Invalid Request) is well-formed whatever was sent -/
+theorem wfMsg_unidentified (req : Option Json) (code : Int) (msg : Text) (h : code = -32700 ∨ code = -32600) :
+    wfMsg req (errMsg none code msg) = true := by
+  rw [wfMsg_errMsg]
+  rcases h with h | h <;> subst h <;> simp [isNull]
+
+theorem wf_servePost (c : SCfg) (reg : Registry) (st : St) (ref : Ref) (j : Json) (hc : reg.Conforming) :
+    ∀ m ∈ (servePost c reg st ref j).2.messages, wfMsg (some j) m = true := by
   unfold servePost
   cases hb : decodeBase j with
   | none => simp [Reaction.http, Reaction.messages]
@@ -695,11 +706,9 @@ theorem wf_servePost (c : SCfg) (reg : Registry) (st : St) (ref : Ref) (j : Json
             simp only [Reaction.http, Reaction.messages, List.append_nil]
             have hag := decode_agree j b req hb hreq
             have hsome : b.id.isSome = true := by simp_all
-            obtain ⟨id', hid'⟩ := Option.isSome_iff_exists.mp hsome
-            have hid : req.id = some id' := by rw [hag.1, hid']
-            rcases decodeRequest_fields j req hreq with hn | ⟨o, rfl, hf, hm⟩
-            · rw [hn] at hid; simp at hid
-            · exact ansMsg_wf o req a id' hid hf hm hex (fun r hr => dispatch_result_wf reg hc req r (hr ▸ hd))
+            rcases decodeRequest_fields j req hreq with ⟨_, hn⟩ | ⟨o, rfl, hf, hm⟩
+            · rw [hag.1] at hn; simp [hn] at hsome
+            · exact ansMsg_wf o req a hf hm (fun r hr => dispatch_result_wf reg hc req r (hr ▸ hd))
       · simp only [h1, Bool.false_eq_true, if_false]
         by_cases h2 : (!b.method.isEmpty) = true
         · simp only [h2, if_true]
@@ -710,8 +719,8 @@ theorem wf_servePost (c : SCfg) (reg : Registry) (st : St) (ref : Ref) (j : Json
             cases decodeResponse j <;> simp [Reaction.http, Reaction.messages]
           · simp [h3, Reaction.http, Reaction.messages]
 
-theorem wf_serveStreamable (c : SCfg) (reg : Registry) (st : St) (i : HttpIn) (hc : reg.Conforming)
-    (hex : idsExact i.body.json?) : ∀ m ∈ (serveStreamable c reg st i).2.messages, wfMsg i.body.json? m = true := by
+theorem wf_serveStreamable (c : SCfg) (reg : Registry) (st : St) (i : HttpIn) (hc : reg.Conforming) :
+    ∀ m ∈ (serveStreamable c reg st i).2.messages, wfMsg i.body.json? m = true := by
   unfold serveStreamable
   by_cases hp : i.pathOk = true
   · simp only [hp]
@@ -721,16 +730,15 @@ theorem wf_serveStreamable (c : SCfg) (reg : Registry) (st : St) (i : HttpIn) (h
       | parseFail => simp [Reaction.http, Reaction.messages]
       | json j =>
         simp only [Bool.not_true, Bool.false_eq_true, if_false, Body.json?]
-        rw [hbd] at hex
-        exact wf_servePost c reg st i.ref j hc hex
+        exact wf_servePost c reg st i.ref j hc
     | get => simp [Reaction.http, Reaction.messages]
     | delete => simp [Reaction.http, Reaction.messages]
     | other => simp [Reaction.http, Reaction.messages]
   · have hp' : i.pathOk = false := by simpa using hp
-    simp only [hp', Bool.not_false, if_true]
-    split <;> simp [Reaction.http, Reaction.messages]
-theorem wf_serveSSE (reg : Registry) (i : SseIn) (hc : reg.Conforming) (hex : idsExact i.body.json?)
-    (henv : readableEnvelope i.body) : ∀ m ∈ (serveSSE reg i).messages, wfMsg i.body.json? m = true := by
+    simp [hp', Reaction.http, Reaction.messages]
+
+theorem wf_serveSSE (reg : Registry) (i : SseIn) (hc : reg.Conforming) :
+    ∀ m ∈ (serveSSE reg i).messages, wfMsg i.body.json? m = true := by
   unfold serveSSE
   cases hp : i.path with
   | other => simp [Reaction.http, Reaction.messages]
@@ -745,64 +753,66 @@ theorem wf_serveSSE (reg : Registry) (i : SseIn) (hc : reg.Conforming) (hex : id
       | live =>
         simp only []
         cases hbd : i.body with
-        | parseFail => rw [hbd] at henv; exact absurd henv (by simp [readableEnvelope])
+        | parseFail =>
+          simp [serveSSEMessage, Reaction.http, Reaction.messages, wfMsg_unidentified _ _ _ (Or.inl rfl), codeParse]
         | json j =>
-          rw [hbd] at henv hex
-          obtain ⟨b, hb, hbm⟩ := henv
-          simp only [serveSSEMessage, hb, Body.json?]
-          by_cases h1 : (b.id.isSome && !b.method.isEmpty) = true
-          · simp only [h1, if_true]
-            cases hreq : decodeRequest j with
-            | none => simp [Reaction.http, Reaction.messages]
-            | some req =>
-              simp only []
-              cases hd : dispatch reg req with
-              | panic => simp [Reaction.messages]
-              | ok a =>
-                simp only [Reaction.messages, Option.toList, List.nil_append]
-                have hag := decode_agree j b req hb hreq
-                have hsome : b.id.isSome = true := by simp_all
-                obtain ⟨id', hid'⟩ := Option.isSome_iff_exists.mp hsome
-                have hid : req.id = some id' := by rw [hag.1, hid']
-                rcases decodeRequest_fields j req hreq with hn | ⟨o, rfl, hf, hm⟩
-                · rw [hn] at hid; simp at hid
-                · exact ansMsg_wf o req a id' hid hf hm hex (fun r hr => dispatch_result_wf reg hc req r (hr ▸ hd))
-          · simp only [h1, Bool.false_eq_true, if_false]
-            by_cases h2 : (!b.method.isEmpty) = true
-            · simp [h2, Reaction.http, Reaction.messages]
-            · simp only [h2, Bool.false_eq_true, if_false]
-              by_cases h3 : b.id.isSome = true
-              · simp [h3, Reaction.http, Reaction.messages]
-              · exfalso
-                rcases hbm with h | h
-                · exact h3 h
-                · apply h2; simp; cases hme : b.method <;> simp_all
+          simp only [serveSSEMessage, Body.json?]
+          cases hb : decodeBase j with
+          | none => simp [Reaction.http, Reaction.messages, wfMsg_unidentified _ _ _ (Or.inl rfl), codeParse]
+          | some b =>
+            simp only []
+            by_cases h1 : (b.id.isSome && !b.method.isEmpty) = true
+            · simp only [h1, if_true]
+              cases hreq : decodeRequest j with
+              | none => simp [Reaction.http, Reaction.messages]
+              | some req =>
+                simp only []
+                cases hd : dispatch reg req with
+                | panic => simp [Reaction.messages]
+                | ok a =>
+                  simp only [Reaction.messages, Option.toList, List.nil_append]
+                  have hag := decode_agree j b req hb hreq
+                  have hsome : b.id.isSome = true := by simp_all
+                  rcases decodeRequest_fields j req hreq with ⟨_, hn⟩ | ⟨o, rfl, hf, hm⟩
+                  · rw [hag.1] at hn; simp [hn] at hsome
+                  · exact ansMsg_wf o req a hf hm (fun r hr => dispatch_result_wf reg hc req r (hr ▸ hd))
+            · simp only [h1, Bool.false_eq_true, if_false]
+              by_cases h2 : (!b.method.isEmpty) = true
+              · simp [h2, Reaction.http, Reaction.messages]
+              · simp only [h2, Bool.false_eq_true, if_false]
+                by_cases h3 : b.id.isSome = true
+                · simp [h3, Reaction.http, Reaction.messages]
+                · simp [h3, Reaction.http, Reaction.messages, wfMsg_unidentified _ _ _ (Or.inr rfl), codeInvalidRequest]
     · simp [hv, Reaction.http, Reaction.messages]
 
-theorem wf_serveStdio (reg : Registry) (b : Body) (hc : reg.Conforming) (hex : idsExact b.json?)
-    (hans : stdioAnswerable b) : ∀ m ∈ (serveStdio reg b).messages, wfMsg b.json? m = true := by
+theorem wf_serveStdio (reg : Registry) (b : Body) (hc : reg.Conforming) :
+    ∀ m ∈ (serveStdio reg b).messages, wfMsg b.json? m = true := by
   unfold serveStdio
   cases b with
-  | parseFail => simp [Reaction.nothing, Reaction.messages]
+  | parseFail => simp [Reaction.messages, wfMsg_unidentified _ _ _ (Or.inl rfl), codeParse]
   | json j =>
-    simp only [Body.json?] at hex ⊢
+    simp only [Body.json?]
     cases hcl : classifyStdio j with
-    | none => simp [Reaction.nothing, Reaction.messages]
+    | none => simp [Reaction.messages, wfMsg_unidentified _ _ _ (Or.inr rfl), codeInvalidRequest]
     | some ty =>
       cases ty with
       | request =>
-        obtain ⟨req, id', hreq, hid⟩ := hans hcl
-        simp only [hreq]
-        cases hd : dispatchStdio reg req with
-        | panic => simp [Reaction.messages]
-        | ok a =>
-          simp only [Reaction.messages, Option.toList, List.nil_append]
-          rcases decodeRequest_fields j req hreq with hn | ⟨o, rfl, hf, hm⟩
-          · rw [hn] at hid; simp at hid
-          · exact ansMsg_wf o req a id' hid hf hm hex (fun r hr => dispatchStdio_result_wf reg hc req r (hr ▸ hd))
+        simp only []
+        cases hreq : decodeRequest j with
+        | none => simp [Reaction.messages, wfMsg_unidentified _ _ _ (Or.inl rfl), codeParse]
+        | some req =>
+          simp only []
+          cases hd : dispatchStdio reg req with
+          | panic => simp [Reaction.messages]
+          | ok a =>
+            simp only [Reaction.messages, Option.toList, List.nil_append]
+            rcases decodeRequest_fields j req hreq with ⟨hj, _⟩ | ⟨o, rfl, hf, hm⟩
+            · subst hj; simp [classifyStdio] at hcl
+            · exact ansMsg_wf o req a hf hm (fun r hr => dispatchStdio_result_wf reg hc req r (hr ▸ hd))
       | response => simp [Reaction.nothing, Reaction.messages]
       | error => simp [Reaction.nothing, Reaction.messages]
       | notification => simp [Reaction.nothing, Reaction.messages]
+
 /-! ## fault classes and their codes -/
 
 theorem errorCode_http (s : Nat) (id : Json) (c : Int) (msg : Text) :
@@ -1001,6 +1011,29 @@ theorem answered_stdio (reg : Registry) (j : Json) (hc : classifyStdio j = some 
     (hd : decodeRequest j = none) : (serveStdio reg (.json j)).answeredWithError = true := by
   simp [serveStdio, hc, hd, Reaction.answeredWithError, errMsg, isErrorMsg, hasKey, lookup, jsonrpcField]
 
+/-- an id with neither method nor result nor error is refused by the Streamable server (400, or the session refusal) -/
+theorem id_only_refused (c : SCfg) (reg : Registry) (st : St) (ref : Ref) (j : Json) (b : Base)
+    (hb : decodeBase j = some b) (hid : b.id.isSome = true) (hm : b.method = [])
+    (hr : decodeResponse j = some (false, false)) :
+    (servePost c reg st ref j).2.answeredWithError = true := by
+  simp only [servePost, hb, hid, hm]
+  cases hres : resolve c.sess st (true && ([] : Text) == t!"initialize") ref with
+  | error s =>
+    have := resolve_error _ _ _ _ _ hres
+    simp [Reaction.http, Reaction.answeredWithError, this]
+  | ok p =>
+    obtain ⟨st1, sess⟩ := p
+    simp [hr, Reaction.http, Reaction.answeredWithError, postBody]
+    cases sess <;> simp
+theorem answered_stdio_malformed (reg : Registry) (b : Body) (h : MalformedLine b) :
+    (serveStdio reg b).answeredWithError = true := by
+  cases h with
+  | unparsable => simp [serveStdio, Reaction.answeredWithError, errMsg, isErrorMsg, hasKey, lookup, jsonrpcField]
+  | invalid j hj => simp [serveStdio, hj, Reaction.answeredWithError, errMsg, isErrorMsg, hasKey, lookup, jsonrpcField]
+
+theorem ansMsg_isSome (id : Option Json) (a : Ans) : (ansMsg id a).isSome = true := by
+  cases a <;> rfl
+
 /-! ## concrete instances (non-vacuity examples and counterexamples of the property files) -/
 
 def objectSchema : Json := .obj [(t!"type", .str t!"object")]
@@ -1011,7 +1044,7 @@ def demoEcho : ToolEntry :=
    fun a => .result ⟨[], some [.text t!"ok" none], some (match a with | none => .null | some o => .obj o), false⟩⟩
 
 def demoBoom : ToolEntry := ⟨⟨t!"boom", [], some objectSchema, none, none⟩, fun _ => .goErr t!"kaboom"⟩
-def demoChan : ToolEntry := ⟨⟨t!"chan", [], some objectSchema, none, none⟩, fun _ => .unencodable⟩
+def demoChan : ToolEntry := ⟨⟨t!"chan", [], some objectSchema, none, none⟩, fun _ => .unencodable t!"json: unsupported type: chan int"⟩
 def demoNil : ToolEntry := ⟨⟨t!"nilcontent", [], some objectSchema, none, none⟩, fun _ => .result ⟨[], none, none, false⟩⟩
 def demoEmbedded : ToolEntry :=
   ⟨⟨t!"embedded", [], some objectSchema, none, none⟩,
